@@ -68,6 +68,38 @@ CLAIMED["C12"] = {
     "design_ref": "DESIGN.md section 8, C12",
 }
 
+CLAIMED["C03"] = {
+    "text": "Theorem C03_scan_exact: for EVERY well-framed packet list (any count, any payload sizes within the accepted range), every "
+            "filter (none/link/FEE/layer-stave, present or absent value), payloads loaded or skipped, file or pipe, the scanner+reader "
+            "model hands on exactly the selected packets of the chain, once each, in order, each with its true offset, decoded header "
+            "and payload, in batches of CAP all full but the last (C03_batch_shape), ending normally; C03_fields ties every decoded "
+            "field to the documented bit layout. Proved by induction over the packet list with an invariant on reader position and "
+            "tracker (filter loop included, fuel shown sufficient). The model is the scanner the current source describes: the "
+            "structural fact where load_cdp samples the packet offset is regenerated on every run and the proof term only type-checks "
+            "for the correct placement (C03_refuted_when_offset_sampled_before is the witness for the other one: defect F1, repaired by "
+            "a fix: commit). Tied to the code by the real InputScanner + spawn_reader over BufReader<File> and StdInReaderSeeker<Stdin>, "
+            "compared CDP by CDP (offset, payload length, CRC of bytes, CRC of decoded fields) and statistic by statistic with the model "
+            "and with an independent chain walk.",
+    "note": "Trusted: Coq kernel; gen translator; harness (temporary files, child process for the pipe); extraction + driver; the Python "
+            "chain walk; the reader model (file seek past EOF succeeds, pipe seek is read-discard). 2^64-byte inputs and u32 statistic "
+            "wrap are outside the statement.",
+    "technique": "Coq proof (induction over packets with a reader/tracker invariant; regenerated structural fact) + differential correspondence model vs code vs independent chain walk",
+    "design_ref": "DESIGN.md section 8, C03",
+}
+CLAIMED["C08"] = {
+    "text": "Theorems C08_exact (bytes written = concatenation in input order of all and only the matching packets, for every flush "
+            "threshold, filter, source and packet list), C08_roundtrip (encode_rdh (decode_rdh b) = b for all 2^512 headers), "
+            "C08_wellframed, C08_idempotent and C08_partition_count / C08_filter_is_key_selection (over the distinct key values the "
+            "order-preserving selections have exactly the input's packets) are proved over Model/Scanner.v + Model/Writer.v on top of "
+            "C03. Tied to the code by RdhCru::load/to_byte_slice round trips and by end-to-end runs of the rebuilt binary: every "
+            "distinct value of a link/FEE/stave key plus an absent one, -o file and stdout, file and pipe input; outputs compared byte "
+            "for byte with the specification and the model, re-filtered, and summed over the values.",
+    "note": "Trusted: Coq kernel; gen translator; harness; the rebuilt binary as run by fvlib; extraction + driver; Python filter. The "
+            "1 Mi-element flush threshold is a parameter of the theorem; memory growth is not modelled.",
+    "technique": "Coq proof (byte-list round trip, writer invariant, list filter/partition lemmas, on top of the C03 scanner theorem) + end-to-end differential correspondence",
+    "design_ref": "DESIGN.md section 8, C08",
+}
+
 ALL = ["C%02d" % i for i in range(1, 21)]
 PENDING_REASON = "not claimed yet: the model/proof for this property is still under construction in this development (see DESIGN.md section 12 build order); no check is registered until its theorem file compiles without admits and its correspondence stream runs"
 
@@ -115,6 +147,7 @@ def main():
 
 
 HOOK_COMMITS = ["f32fed4"]
+FIX_COMMITS = ["2eb10e8"]
 NOT_APPLICABLE = {}
 
 if __name__ == "__main__":
